@@ -166,6 +166,9 @@ class C03:
 
     def gen(self, rng, tier, index):
         spec = gen_fault_spec(rng)
+        if rng.random() < 0.15:
+            # coba's default logger, not quiet, possibly with the whole run inside a timing block of the caller's
+            spec["logger"], spec["quiet"], spec["outer_time"] = "indent", False, rng.random() < 0.6
         kinds = add_faults(rng, spec) if index % 2 == 1 else []
         config = X.gen_config(rng) if rng.random() < 0.7 else [1, 0, 0]
         return {"spec": spec, "config": config, "knobs": X.gen_knobs(rng), "faults": kinds,
